@@ -76,7 +76,7 @@ func maskKey(r *gen.R) [4]byte {
 var validCloseCodes = []int{1000, 1001, 1002, 1003, 1007, 1008, 1009, 1010, 1011, 3000, 3999, 4000, 4999}
 
 func utf8Reason(r *gen.R, n int) string {
-	parts := []string{"a", "z", "é", "ß", "→", "世", "界", "😀", " ", "ok"}
+	parts := []string{"a", "z", "é", "ß", "→", "世", "界", "😀", " ", "ok", "\ufffd", "\u0000", "\U0010ffff"}
 	var b []byte
 	for len(b) < n {
 		p := parts[r.Intn(len(parts))]
@@ -191,6 +191,9 @@ func genStream(r *gen.R, o StreamOpts) *Stream {
 		isJSON := false
 		if o.JSON && r.Chance(1, 4) {
 			typ = 1
+			if r.Chance(1, 4) {
+				typ = 2 // JSON carried in a binary message: ReadJSON does not care about the type
+			}
 			data, _ = json.Marshal(genJSONVal(r))
 			isJSON = true
 			if r.Chance(1, 5) {
